@@ -15,6 +15,7 @@ type ReqCase struct {
 	ID         string              `json:"id"`
 	Method     string              `json:"method"`
 	Path       string              `json:"path"`
+	RawPath    string              `json:"rawPath"` // optional: another valid percent-encoding of Path (what a client put on the wire)
 	RawQuery   string              `json:"rawQuery"`
 	Headers    map[string][]string `json:"headers"`
 	Body       string              `json:"body"` // base64 when BodyB64
@@ -72,7 +73,7 @@ func Serve(h http.Handler, rec *Recorder, c ReqCase) {
 		body = io.NopCloser(bytes.NewReader(bs))
 	}
 	r := &http.Request{
-		Method: c.Method, URL: &url.URL{Path: c.Path, RawQuery: c.RawQuery}, Proto: "HTTP/1.1", ProtoMajor: 1, ProtoMinor: 1,
+		Method: c.Method, URL: &url.URL{Path: c.Path, RawPath: c.RawPath, RawQuery: c.RawQuery}, Proto: "HTTP/1.1", ProtoMajor: 1, ProtoMinor: 1,
 		Header: http.Header{}, Body: body, Host: "example.test", RequestURI: c.Path,
 	}
 	for k, vs := range c.Headers {
